@@ -127,3 +127,18 @@ package processorqueue
 //@   ensures[size] result ==> old(atomicval(p.requestsWatcher.requestCount)) < p.maxQueueSize
 //@   ensures[full-rejected] old(atomicval(p.requestsWatcher.requestCount)) >= p.maxQueueSize ==> !result && atomicval(p.requestsWatcher.requestCount) == old(atomicval(p.requestsWatcher.requestCount))
 //@   ensures[registered] result ==> in(req.apiStream.GetID(), p.requestsWatcher.requests) && p.requestsWatcher.requests[req.apiStream.GetID()] == req
+
+// The TTL scan only times requests out; it never changes the watch list or the expiry index, so a request that is busy
+// (claimed by the processor) when its expiry passes is still found by a later scan.
+//@ func (*RequestWatcher).notifyExpiredRequests
+//@   prop C06
+//@   mode seq
+//@   requires watchOK(watcher) && watcher.clock != nil
+//@   modifies allof(Request.state), allof(Request.result), allof(Request.waitGroup), opall(Request.waitGroup), ovof(watcher.nextExpireAt), now
+//@   loop 1 modifies nothing
+//@   loop 2 modifies allof(Request.state), allof(Request.result), allof(Request.waitGroup), opall(Request.waitGroup)
+//@   loop 3 modifies nothing
+//@   loop 2 invariant[busy] forall(o, *Request, old(o.state) == requestProcessing ==> o.state == requestProcessing)
+//@   ensures[expiry-index-untouched] forall(k, string, (in(k, watcher.requestsExpireAt) <==> old(in(k, watcher.requestsExpireAt))) && watcher.requestsExpireAt[k] == old(watcher.requestsExpireAt[k]))
+//@   ensures[watch-list-untouched] forall(k, string, (in(k, watcher.requests) <==> old(in(k, watcher.requests))) && watcher.requests[k] == old(watcher.requests[k]))
+//@   ensures[busy-requests-left-alone] forall(o, *Request, old(o.state) == requestProcessing ==> o.state == requestProcessing)
